@@ -4,7 +4,7 @@ import Cvss.Proofs.Parse4Defect
 
 For every grammatical vector (witness list `w`), every defect kind of `Spec.Defect` and every position:
 the parser returns exactly the error value the Spec promises — `ErrInvalidCVSSHeader` (1) for a damaged or
-missing header, `ErrInvalidMetricValue` (4) for an illegal value, `ErrInvalidMetricOrder` (3) for a misplaced
+missing header (the part before the first `/` is not `CVSS:4.0`; this includes `CVSS:4.0` followed by junk, finding F4), `ErrInvalidMetricValue` (4) for an illegal value, `ErrInvalidMetricOrder` (3) for a misplaced
 metric (swapped neighbours `swap i`, and in general `move i j`: any one element taken out and put back at any
 other position) / a repeated metric / an unknown abbreviation, `ErrTooShortVector` (2) for a truncation inside
 the base group. All defect kinds hold for the model at full strength (no `_partial`), including the corner
@@ -91,6 +91,12 @@ theorem w0_witness : ∃ s0, Spec.V4.Witness s0 w0 :=
 
 /-- every defect kind is applicable to `w0` -/
 example : ((Defect.header (b "CVSS:3.1")).apply .v40 w0).isSome = true := by decide
+/-- the header defect includes the right header followed by junk (the part before the first `/` is then not the
+    header); putting the right header back is no defect -/
+example : ((Defect.header (b "CVSS:4.01")).apply .v40 w0).isSome = true ∧ ((Defect.header (b "CVSS:4.0X")).apply .v40 w0).isSome = true ∧
+    ((Defect.header (b "CVSS:4.0")).apply .v40 w0) = none := by decide
+example : Model.parse40 (b "CVSS:4.01/AV:N/AC:L/AT:N/PR:N/UI:N/VC:H/VI:H/VA:H/SC:N/SI:N/SA:N/E:A/CR:H/U:Red") =
+    .err Model.eHeader := by decide
 example : ((Defect.illegalValue 3 (b "X")).apply .v40 w0).isSome = true := by decide
 example : ((Defect.repeated 11 11 (b "P")).apply .v40 w0).isSome = true := by decide
 example : ((Defect.unknown 14 [] (b "H")).apply .v40 w0).isSome = true := by decide
